@@ -655,3 +655,8 @@ M("c19-sort-unstable-again", "C19", "cola/libdialect/planarise.cpp",
   "        std::sort(evts.begin(), evts.end(), [](Event *a, Event *b) -> bool {return a->varCoord < b->varCoord;});", mention=["NODE-GROUPS"])
 M("c10-pair-ids-sixteen-bits", "C10", "cola/libavoid/orthogonal.cpp",
   "        unsigned int m_index1;\n        unsigned int m_index2;", "        unsigned short m_index1;\n        unsigned short m_index2;", mention=["ID-WIDTH"])
+
+# ---------------------------------------------------------------- C03 round d
+M("c03-neutral-outside-visibility-local", "C03", "cola/libavoid/orthogonal.cpp",
+  "            if (events[index]->v->c)\n            {\n                events[index]->v->c->visDirections |= addedVisibility;\n            }",
+  "            VertInf *vert = events[index]->v->c;\n            if (vert)\n            {\n                vert->visDirections |= addedVisibility;\n            }", expect="silent")
